@@ -39,6 +39,14 @@ pub fn cli_main() {
             let seed: u64 = args[3].parse().unwrap();
             let n: usize = args[4].parse().unwrap();
             let mut rng = rng::Rng::new(seed, lab);
+            if lab == "mac" {
+                // compiled programs: executed as one batch
+                let reqs = labs::gen(lab, &mut rng, n);
+                for (req, obs) in reqs.iter().zip(labs::mac::exec_batch(&reqs)) {
+                    writeln!(out, "{req}\t{obs}").unwrap();
+                }
+                return;
+            }
             for req in labs::gen(lab, &mut rng, n) {
                 let obs = exec_line(&req);
                 writeln!(out, "{req}\t{obs}").unwrap();
@@ -56,14 +64,26 @@ pub fn cli_main() {
             }
         }
         Some("exec") => {
+            let reqs: Vec<String> = std::io::stdin()
+                .lock()
+                .lines()
+                .map(|l| l.unwrap().split('\t').next().unwrap().to_string())
+                .filter(|r| !r.trim().is_empty())
+                .collect();
+            // macro-lab requests are compiled and run as one batch
+            let mac: Vec<String> = reqs.iter().filter(|r| r.starts_with("mac ")).cloned().collect();
+            let mut mac_obs = labs::mac::exec_batch(&mac).into_iter();
+            for req in reqs {
+                let obs = if req.starts_with("mac ") { mac_obs.next().unwrap() } else { exec_line(&req) };
+                writeln!(out, "{req}\t{obs}").unwrap();
+                out.flush().unwrap();
+            }
+        }
+        Some("macsrc") => {
+            // the Rust source a `mac` request (on stdin) is rendered to
             for line in std::io::stdin().lock().lines() {
                 let line = line.unwrap();
-                let req = line.split('\t').next().unwrap().to_string();
-                if req.trim().is_empty() {
-                    continue;
-                }
-                let obs = exec_line(&req);
-                writeln!(out, "{req}\t{obs}").unwrap();
+                println!("{}", labs::mac::source_of(line.split('\t').next().unwrap()));
             }
         }
         _ => {
